@@ -23,7 +23,17 @@ CURVES = {
     "LShape": ([1, 1, 2, 2, 1, 1], True, 1.0, 1.0),
     "Circle": ([1], True, 2 * math.pi, 1.0),
     "UnitInterval": ([1], False, 1.0, 1.0),
+    "ThinRect": ([16, 1, 16, 1], True, 0.0625, 1.0 / 64),      # custom polygon accepted by PiecewisePolygon
 }
+
+
+def make_curve(name):
+    from src import parametrization as pz
+    if name == "ThinRect":
+        v = [np.array([0.0, 0.0]), np.array([1.0, 0.0]), np.array([1.0, 0.0625]), np.array([0.0, 0.0625]), np.array([0.0, 0.0])]
+        g = pz.PiecewisePolygon(v)
+        return g
+    return getattr(pz, name)()
 
 MC = """---- MODULE %s ----
 EXTENDS %s
@@ -157,7 +167,7 @@ class Factory:
         from src.single_layer import SingleLayerOperator
         self.shape = shape
         self.th = th
-        self.gamma = getattr(pz, shape.name)()
+        self.gamma = make_curve(shape.name)
         self.MeshParametrized = MeshParametrized
         self.cache = {}
         with contextlib.redirect_stdout(io.StringIO()):
